@@ -55,7 +55,7 @@ NoCh == [open |-> FALSE, bs |-> 1, tdb |-> 0, tdbw |-> 0, off |-> 0, written |->
          kib |-> 0, nkeys |-> 0, keyb |-> <<>>, unit |-> 0, hstate |-> 0]
 NoHdr == [nkeys |-> 0, tdb |-> 0, fsbs |-> 0, state |-> 0, off |-> 0]
 NoUf == [exists |-> FALSE, hdr |-> NoHdr, sb |-> Zero, fb |-> <<>>]
-NoPend == [kind |-> "none", blk |-> 0, cnt |-> 0, next |-> 0, last |-> -1, lo |-> 0, hi |-> 0, val |-> 0, grow |-> FALSE]
+NoPend == [kind |-> "none", blk |-> 0, cnt |-> 0, next |-> 0, last |-> -1, lo |-> 0, hi |-> 0, val |-> 0, grow |-> FALSE, err |-> FALSE]
 NoRes == [kind |-> "none", writes |-> 0, needcheck |-> FALSE]
 
 DevAt(d, ln, g) == IF g >= 0 /\ g < ln THEN d[g] ELSE Zero
@@ -78,7 +78,7 @@ Setup(c) == IF c.tdbw = 1 THEN c
 
 \* ------------------------------------------------------------------ one iteration of the loop in undo_write_tdb()
 SaveOne(c, u, d, ln, tb) ==
-   IF tb \in c.written THEN [c |-> c, u |-> u]
+   IF tb \in c.written THEN [c |-> c, u |-> u, st |-> "skip"]
    ELSE
    LET c0  == [c EXCEPT !.written = c.written \cup {tb}]
        tdb == c.tdb
@@ -100,17 +100,22 @@ SaveOne(c, u, d, ln, tb) ==
        c1  == [c0 EXCEPT !.keyb = keyb1, !.kib = IF extend THEN c.kib ELSE c.kib + 1,
                          !.nkeys = IF extend THEN c.nkeys ELSE c.nkeys + 1, !.ublk = c.ublk + 1]
        u1  == [u EXCEPT !.fb = PutBlk(u.fb, c.ublk, DBlock(data))]
-   IN IF n = 0 THEN [c |-> c0, u |-> u]                      \* nothing there to save: "continue" before the index write
-      ELSE WriteIndexes(c1, u1, d, ln)
+   IN IF n = 0 THEN [c |-> c0, u |-> u, st |-> "empty"]       \* nothing there to save: "continue" before the index write
+      ELSE LET w == WriteIndexes(c1, u1, d, ln) IN [c |-> w.c, u |-> w.u, st |-> "saved"]
 
 \* size / first / last undo block of undo_write_tdb(channel, blk, cnt)
 OpSize(c, cnt) == IF cnt = 1 THEN c.bs ELSE IF cnt < 0 THEN -cnt ELSE cnt * c.bs
 OpFirst(c, blk) == (IF DevAbsTiling THEN blk * c.bs + c.off ELSE blk * c.bs) \div c.tdb
 OpLast(c, blk, cnt) == ((IF DevAbsTiling THEN blk * c.bs + c.off ELSE blk * c.bs) + OpSize(c, cnt) - 1) \div c.tdb
 
-RECURSIVE SaveAll(_, _, _, _, _, _)
-SaveAll(c, u, d, ln, tb, last) == IF tb > last THEN [c |-> c, u |-> u]
-                                  ELSE LET r == SaveOne(c, u, d, ln, tb) IN SaveAll(r.c, r.u, d, ln, tb + 1, last)
+\* retval of undo_write_tdb: the EXT2_ET_SHORT_READ of a block that starts at or beyond the end of the device is
+\* still in retval when the loop ends, unless a later block was saved: such a call fails and never reaches the
+\* backing channel (the blocks stay marked, so that repeating the call succeeds)
+ErrAfter(err, st) == IF st = "skip" THEN err ELSE st = "empty"
+RECURSIVE SaveAll(_, _, _, _, _, _, _)
+SaveAll(c, u, d, ln, tb, last, err) ==
+   IF tb > last THEN [c |-> c, u |-> u, err |-> err]
+   ELSE LET r == SaveOne(c, u, d, ln, tb) IN SaveAll(r.c, r.u, d, ln, tb + 1, last, ErrAfter(err, r.st))
 
 \* the arguments undo_write_byte passes to undo_write_tdb
 ByteBlk(c, o)    == IF DevByteOffTwice THEN (o + c.off) \div c.bs ELSE o \div c.bs
@@ -246,7 +251,7 @@ OpenCh(off, topt) ==
    /\ nruns' = nruns + 1
    /\ UNCHANGED <<dev, len, uf, pend, nops, res, dmg>>
 
-SetBlk(b) == /\ ch.open /\ pend = NoPend /\ b # ch.bs
+SetBlk(b) == /\ ch.open /\ pend = NoPend
              /\ ch' = [ch EXCEPT !.bs = b, !.tdb = IF ch.tdb = 0 \/ ch.tdbw = 0 THEN b ELSE ch.tdb]
              /\ UNCHANGED <<dev, len, uf, pend, nops, nruns, res, dmg>>
 
@@ -262,29 +267,31 @@ Begin(kind, a, n) ==
       IN /\ ch' = c
          /\ pend' = [kind |-> kind, blk |-> blk, cnt |-> cnt, next |-> OpFirst(c, blk), last |-> OpLast(c, blk, cnt),
                      lo |-> CallLo(c, kind, a, n), hi |-> CallHi(c, kind, a, n), val |-> CallVal(kind, nops + 1),
-                     grow |-> kind # "disc"]
+                     grow |-> kind # "disc", err |-> FALSE]
    /\ nops' = nops + 1
    /\ UNCHANGED <<dev, len, uf, nruns, res, dmg>>
 
 SaveStep == /\ pend.kind # "none" /\ pend.next <= pend.last
-            /\ LET r == SaveOne(ch, uf, dev, len, pend.next) IN ch' = r.c /\ uf' = r.u
-            /\ pend' = [pend EXCEPT !.next = pend.next + 1]
+            /\ LET r == SaveOne(ch, uf, dev, len, pend.next)
+               IN ch' = r.c /\ uf' = r.u /\ pend' = [pend EXCEPT !.next = pend.next + 1, !.err = ErrAfter(pend.err, r.st)]
             /\ UNCHANGED <<dev, len, nops, nruns, res, dmg>>
 
 Apply == /\ pend.kind # "none" /\ pend.next > pend.last
-         /\ dev' = ApplyDev(dev, len, pend.lo, pend.hi, pend.val, pend.grow)
-         /\ len' = ApplyLen(len, pend.hi, pend.grow)
+         /\ dev' = IF pend.err THEN dev ELSE ApplyDev(dev, len, pend.lo, pend.hi, pend.val, pend.grow)
+         /\ len' = IF pend.err THEN len ELSE ApplyLen(len, pend.hi, pend.grow)
          /\ pend' = NoPend
          /\ UNCHANGED <<ch, uf, nops, nruns, res, dmg>>
 
-\* a whole call in one step (what one line of an API-level trace is)
+\* a whole call in one step (what one line of an API-level trace is); applied = the call returned 0
 Call(kind, a, n, applied) ==
    /\ CallOk(kind, a, n)
    /\ LET c == Setup(ch)
           blk == CallBlk(c, kind, a, n)
           cnt == CallCnt(c, kind, a, n)
-          r == SaveAll(c, uf, dev, len, OpFirst(c, blk), OpLast(c, blk, cnt))
+          r == SaveAll(c, uf, dev, len, OpFirst(c, blk), OpLast(c, blk, cnt), FALSE)
       IN /\ ch' = r.c /\ uf' = r.u
+         /\ (r.err => ~applied)
+         /\ (~r.err /\ kind \notin {"zero", "disc"} => applied)    \* zeroout / discard may be unimplemented by the host
          /\ dev' = IF applied THEN ApplyDev(dev, len, CallLo(c, kind, a, n), CallHi(c, kind, a, n), CallVal(kind, nops + 1), kind # "disc")
                    ELSE dev
          /\ len' = IF applied THEN ApplyLen(len, CallHi(c, kind, a, n), kind # "disc") ELSE len
@@ -305,13 +312,18 @@ Damage(b) == /\ ~ch.open /\ uf.exists /\ dmg = {} /\ res.kind = "none"
              /\ dmg' = {b}
              /\ UNCHANGED <<dev, len, ch, uf, pend, nops, nruns, res>>
 
+\* the damage is taken back (used by damage sweeps over one undo file; only after a refusal, nothing has changed then)
+Repair == /\ dmg # {} /\ res.kind \in {"refused", "dry"}
+          /\ dmg' = {} /\ res' = NoRes
+          /\ UNCHANGED <<dev, len, ch, uf, pend, nops, nruns>>
+
 \* somebody else changes the superblock between the recorded run and e2undo
 Tamper == /\ ~ch.open /\ uf.exists /\ dmg = {} /\ res.kind = "none" /\ dev[uf.hdr.off + 1] # Foreign
           /\ dev' = [dev EXCEPT ![uf.hdr.off + 1] = Foreign]
           /\ UNCHANGED <<len, ch, uf, pend, nops, nruns, res, dmg>>
 
 E2undo(dry, rev) ==
-   /\ ~ch.open /\ uf.exists /\ res.kind = "none"
+   /\ ~ch.open /\ uf.exists /\ res.kind \in {"none", "refused", "dry"}     \* runs that did not write can be repeated
    /\ LET r == Undo(uf, dmg, dev, len, rev)
       IN /\ dev' = IF dry THEN dev ELSE r.dev
          /\ len' = IF dry THEN len ELSE r.len
@@ -326,7 +338,7 @@ Next == \/ \E off \in Offsets, t \in TdbSizes \cup {0} : OpenCh(off, t)
         \/ SaveStep \/ Apply
         \/ \E fin \in BOOLEAN : CloseCh(fin)
         \/ \E b \in 0..(MaxLen + 8) : Damage(b)
-        \/ Tamper
+        \/ Tamper \/ Repair
         \/ \E dry \in BOOLEAN, rev \in BOOLEAN : E2undo(dry, rev)
 Spec == Init /\ [][Next]_vars
 
